@@ -444,9 +444,11 @@ impl VersionSet {
         self.prev_wal_number = maybe_prev_wal_num;
 
         // Drop the manifest reader (and therefore the underlying file handle) before attempting to
-        // reuse the existing manifest file
+        // reuse the existing manifest file. A manifest that ends in an unfinished record is not
+        // appended to because the appended records would be hidden from the next reader.
+        let manifest_ended_cleanly = manifest_reader.ended_cleanly();
         drop(manifest_reader);
-        if self.maybe_reuse_manifest(&manifest_file_path) {
+        if manifest_ended_cleanly && self.maybe_reuse_manifest(&manifest_file_path) {
             #[cfg(raindb_verif)]
             self.verif_recovered_event(manifest_records_read, true);
             return Ok(true);
